@@ -31,7 +31,7 @@ INL_DEVS = ["NoRestart", "DollarNewline", "CRLFUnit", "EOFNotDelim", "SeekOtherS
 EXPORT_ACTIONS = ["ADecide", "AName", "ANameRetry", "ACreate", "AHeader", "AInfo", "APalEntry", "ASeekLine", "AWriteLine",
                   "AWriteBlob", "AClose"]
 INLINE_ACTIONS = ["ADictTok", "AID", "AMRefill", "AMFind", "AMChar", "AMFinish", "AMEof", "AResume"]
-REALISABLE = {"Flate", "LZW", "A85", "AHx", "RL", "DCT", "FlatePNG"}
+REALISABLE = {"Flate", "LZW", "A85", "AHx", "RL", "DCT"} | set(R.PREDICTOR_FILTERS)
 
 
 def devsets(dev):
@@ -50,12 +50,16 @@ EXPORT_CONFIGS = {
               ("decision", "Geo2x1", "KindsAll", "ChainsUpTo2", "OneImage", "EmptyDir"),
               ("naming", "Geo1", "KindBw", "ChainsNaming", "NamesUpTo3", "Dirs"),
               # images whose streams exercise what small ones cannot: a table-full LZW clear, RunLength runs / literals above 128
-              ("large", "GeoLargeQuick", "KindRgb", '{<<"LZW">>, <<"RL">>}', "OneImage", "EmptyDir")],
+              ("large", "GeoLargeQuick", "KindRgb", '{<<"LZW">>, <<"RL">>}', "OneImage", "EmptyDir"),
+              # every filter that takes DecodeParms x every predictor class (none is above; TIFF 2, PNG 10-15), in each position
+              ("predictors", "GeoPredQuick", "KindsLarge", "PredChainsQuick", "OneImage", "EmptyDir")],
 }
 EXPORT_CONFIGS["thorough"] = EXPORT_CONFIGS["quick"] + [
     ("bmp-writer-chains", "Geo3", "KindsBmp", '{<<"LZW">>, <<"A85", "Flate">>, <<"AHx">>, <<"RL">>, <<"Flate", "LZW">>, <<"FlatePNG">>}', "OneImage", "EmptyDir"),
     ("large-chains", "GeoLarge", "KindsLarge", '{<<"LZW">>, <<"RL">>, <<"FlatePNG">>, <<"Flate">>, <<"A85", "LZW">>, <<"LZW", "FlatePNG">>}', "OneImage", "EmptyDir")]
-EXPORT_CONFIGS["thorough"] = [c for c in EXPORT_CONFIGS["thorough"] if c[0] != "large"]
+EXPORT_CONFIGS["thorough"] = [c for c in EXPORT_CONFIGS["thorough"] if c[0] not in ("large", "predictors")] + [
+    ("predictors", "GeoPred", "KindsLarge", "PredChains", "OneImage", "EmptyDir"),
+    ("large-predictors", "GeoLargeQuick", "KindsLarge", '{<<"LZWPNG">>, <<"LZWTIFF">>, <<"FlateTIFF">>, <<"A85", "LZWPNG">>}', "OneImage", "EmptyDir")]
 
 
 def classify_bmp(blob, want_rows, w, h, bits):
@@ -164,7 +168,7 @@ def sig(rec):
 
 
 def in_domain(im):
-    return im["pk"] in ("bw", "gray", "rgb") and all(f in ("Flate", "LZW", "A85", "AHx", "RL", "FlatePNG") or (f == "DCT" and q == len(im["filters"]) - 1)
+    return im["pk"] in ("bw", "gray", "rgb") and all(f in ("Flate", "LZW", "A85", "AHx", "RL") or f in R.PREDICTOR_FILTERS or (f == "DCT" and q == len(im["filters"]) - 1)
                                                     for q, f in enumerate(im["filters"]))
 
 
